@@ -264,7 +264,13 @@ func (c *Ctx) Explore(name, doc string, bound, maxLen int, d func(x *X)) {
 			if c.Record {
 				c.Res.Recorded = append(c.Res.Recorded, v.Key())
 			}
-			if fid, ok := c.Known[v.Key()]; ok {
+			fid, ok := c.Known[v.Key()]
+			if !ok {
+				// A finding may also be identified by its failure kind alone, when the
+				// driver assigns that kind only under an exact structural predicate.
+				fid, ok = c.Known[v.Kind+"|"+v.Config+"|*"]
+			}
+			if ok {
 				c.Res.KnownHits[fid]++
 				continue
 			}
@@ -273,7 +279,7 @@ func (c *Ctx) Explore(name, doc string, bound, maxLen int, d func(x *X)) {
 				continue
 			}
 			// Confirm 5x from the recorded choice sequence.
-			ok := true
+			ok = true
 			for i := 0; i < 5; i++ {
 				e2 := mc.Run(wrap, choices)
 				found := false
